@@ -183,6 +183,23 @@ pub fn run(case: &Value) -> (Outcome, Value) {
             return (Outcome::Fail(format!("a spelling variant lists as {:?}, expected {:?}", o.text, want)), detail);
         }
     }
+    // ---- letter case (C16; enabled by the C16 check): outside string literals and remarks the
+    // upper-case spelling of the same text must list identically and parse alike
+    if std::env::var("VERIF_LEX_CASECHECK").map_or(false, |v| v == "1")
+        && !src.contains('"') && !src.contains('\'') && !src.to_ascii_uppercase().contains("REM") && !src.contains("DATA")
+    {
+        let up = src.to_ascii_uppercase();
+        if up != src {
+            let u = observe(up.clone());
+            if u.text != o.text {
+                return (Outcome::Fail(format!("letter case changes the listing: {:?} lists as {:?} but {:?} lists as {:?}",
+                    src, o.text, up, u.text)), detail);
+            }
+            if u.ast1.is_ok() != o.ast1.is_ok() || (u.ast1.is_ok() && u.ast1 != o.ast1) {
+                return (Outcome::Fail(format!("letter case changes the parse of {:?}", src)), detail);
+            }
+        }
+    }
     // ---- conformance with the model scanner (divergence only)
     if let Some(mt) = case.get("mtext") {
         let want = cps_to_string(mt);
